@@ -222,7 +222,7 @@ def configs(tier):
     templ = [inst(1, [w("foo")], "counter", scope="sA"), inst(2, [w("bar")], "ogauge", scope="sB"),
              inst(3, [w("baz")], "hist", "s", scope="sA")]
     add("faults", [opts(s, **o) for s in SCHEMES for o in fopts], templ, res=RES3, vals=(2,), maxinst=2, maxrec=2,
-        maxscr=3, maxpre=1, shut=True, faults=("cb", "cbctx", "prod"), maxfaults=2 if th else 1, budget=None if th else 1500)
+        maxscr=3, maxpre=1, shut=True, faults=("cb", "cbctx", "prod"), maxfaults=2 if th else 1, budget=16000 if th else 1500)   # thorough: 48 240 leaves, a third keeps the tier under 30 min
     # ---- illformed: inputs the SDK accepts although they are not valid UTF-8 (attribute value, description, meter
     # name / version / scope attribute): never a panic, the well-formed rest of the scrape is exposed faithfully
     badscope = lambda how: {"id": "sX" + how[0], "name": "sX", "version": "vsX", "url": "", "attrs": [], "ill": how}
